@@ -213,7 +213,8 @@ sendLoop:
 				rs.log.Print(err)
 				continue sendLoop
 			}
-			if len(b) > rs.sendLimit {
+			// The length must also fit the 24-bit length field of the header.
+			if len(b) > rs.sendLimit || len(b) > 0xffffff {
 				rs.log.Println("Message size", len(b), "exceeds limit of",
 					rs.sendLimit)
 				continue sendLoop
